@@ -196,12 +196,14 @@ func (s *Server) verifySortition(pubKey *ecdsa.PublicKey, data *SortitionData, l
 	}
 	isValid, err := VrfVerifySortition(pk, lookBackSeed, data.RoundIndex, data.Step, data.Proof, data.Votes, threshold, stake, totalStake)
 	if err != nil || !isValid {
-		if data.Round.Cmp(s.currentRound) < 0 || data.RoundIndex < s.roundIndex {
-			return nil
-		}
+		// A failed sortition check is never forgiven: the Voter and the MessageHandler decide by
+		// their own (possibly lagging) context whether a vote is old, not by the engine's.
 		logging.Error("=======verify sortition failed.", "Round", data.Round, "RoundIndex", data.RoundIndex,
 			"step", data.Step, "validatorTh", threshold,
 			"stake", stake, "totalStake", totalStake, "seed", lookBackSeed.String(), "addr", addr.String())
+		if err == nil {
+			err = fmt.Errorf("sortition verification failed")
+		}
 		return err
 	}
 
